@@ -2,7 +2,7 @@
    Property theorems only: each proof is one application of a lemma proved in Proofs/, followed by Print Assumptions. *)
 From Coq Require Import ZArith List Bool.
 From CS Require Repr.
-From CS Require Import Actions NAdvance Multistage Exec Sched RunFacts Projections BasicInv MultistageRun TLBridge MixBridge.
+From CS Require Import Actions NAdvance Multistage Exec Sched RunFacts Projections BasicInv MultistageRun AllocTotal TLBridge MixBridge.
 Import ListNotations.
 Open Scope Z_scope.
 
@@ -25,12 +25,13 @@ Theorem C18_single_disk : forall (mv : bool) (N : Z) (k : nat), 1 <= N ->
 Proof. intros mv N k H1. destruct (single_disk_run mv N H1 k) as (o0 & m & ls & E & Hm & Hl). exists o0, m, ls. auto using mon_ok_no_err. Qed.
 Print Assumptions C18_single_disk.
 
-(* MultistageCheckpointSchedule: every N, every RAM/DISK split, both trajectories; budgets = the declared unit counts *)
-Theorem C18_multistage : forall (N ram disk : Z) (tj : traj) (c : Multistage.cfg) (k : nat),
-  1 <= N -> 0 <= ram -> 0 <= disk -> (2 <= N -> 1 <= ram + disk) -> Multistage.construct N ram disk tj = Ok c ->
+(* MultistageCheckpointSchedule: every N, every RAM/DISK split, both trajectories; budgets = the declared unit counts;
+   the constructor (allocate_snapshots included) is proved total on this domain, so there is no hypothesis about it *)
+Theorem C18_multistage : forall (N ram disk : Z) (tj : traj) (k : nat),
+  1 <= N -> 0 <= ram -> 0 <= disk -> (2 <= N -> 1 <= ram + disk) ->
   exists o0 m ls, run_case (PMulti N ram disk tj) (ms_params N ram disk) (repeat Next k) = Ok (o0, m, ls) /\ no_err err_C18 m /\ no_raise ls.
 Proof.
-  intros N ram disk tj c k H1 H2 H3 H4 H5. destruct (multistage_run N ram disk tj c k H1 H2 H3 H4 H5) as (o0 & m & ls & E & Hm & Hl & _).
+  intros N ram disk tj k H1 H2 H3 H4. destruct (multistage_run_total N ram disk tj k H1 H2 H3 H4) as (o0 & m & ls & E & Hm & Hl).
   exists o0, m, ls. auto using mon_ok_no_err.
 Qed.
 Print Assumptions C18_multistage.
